@@ -250,6 +250,77 @@ def make_xfunction(prog, plan):
                 got.update(freq=freq, a=a)
             SynthDef.wrap(inner, rates=['ir'], prepend=[3.0])
             run({'gate': gate, 'freq': got['freq'], 'a': got['a']})
+    elif variant in xg.WRAP_VARIANTS:
+        from sc3.synth.synthdef import SynthDef
+        from sc3.synth.ugens import inout as io
+        got = {}
+
+        def keep(**kw):
+            got.update(kw)
+
+        if variant == 'wrap2':
+            def graph(gate=1.0):
+                def one(wa_f=2.0, wa_a: 'ir' = (0.25, 3.0)):
+                    keep(wa_f=wa_f, wa_a=wa_a)
+
+                def two(wb_d=0.5, wb_p: 'ar' = (0.75, 1.25),
+                        wb_t: 'tr' = 1.5):
+                    keep(wb_d=wb_d, wb_p=wb_p, wb_t=wb_t)
+                SynthDef.wrap(one)
+                SynthDef.wrap(two)
+                run(dict(got, gate=gate))
+        elif variant == 'wrap3':
+            def graph(gate=1.0):
+                def one(wc_a=2.0, wc_b: 'tr' = (0.25, 0.5)):
+                    keep(wc_a=wc_a, wc_b=wc_b)
+
+                def two(wd_a: 'ir' = 3.0, wd_b=(0.75, 1.0, 1.25)):
+                    keep(wd_a=wd_a, wd_b=wd_b)
+
+                def three(we_a: 'ar' = (1.5, 1.75), we_b=4.0):
+                    keep(we_a=we_a, we_b=we_b)
+                SynthDef.wrap(one)
+                SynthDef.wrap(two)
+                SynthDef.wrap(three)
+                run(dict(got, gate=gate))
+        elif variant == 'wrapman':
+            def graph(gate=1.0):
+                def one(wf_a=2.0, wf_b: 'ir' = (0.25, 0.5)):
+                    keep(wf_a=wf_a, wf_b=wf_b)
+                SynthDef.wrap(one)
+                io.Control.add_name('wf_c')
+                keep(wf_c=io.Control.kr([0.75, 1.0]))
+                io.AudioControl.add_name('wf_d')
+                keep(wf_d=io.AudioControl.ar(1.25))
+                run(dict(got, gate=gate))
+        elif variant == 'wrapnest':
+            def graph(gate=1.0):
+                def deep(wh_a: 'tr' = 0.75, wh_b=(1.0, 1.25)):
+                    keep(wh_a=wh_a, wh_b=wh_b)
+
+                def one(wg_a=2.0, wg_b: 'ir' = (0.25, 0.5)):
+                    keep(wg_a=wg_a, wg_b=wg_b)
+                    SynthDef.wrap(deep)
+
+                def sib(wi_a=3.0, wi_b: 'ar' = (1.5, 1.75)):
+                    keep(wi_a=wi_a, wi_b=wi_b)
+                SynthDef.wrap(one)
+                SynthDef.wrap(sib)
+                run(dict(got, gate=gate))
+        else:
+            def graph():
+                def one(wj_a=(0.25, 0.5), wj_b: 'ir' = 2.0):
+                    keep(wj_a=wj_a, wj_b=wj_b)
+
+                def none():
+                    pass
+
+                def two(wk_a: 'tr' = 3.0, wk_b: 'ar' = (0.75, 1.0, 1.25)):
+                    keep(wk_a=wk_a, wk_b=wk_b)
+                SynthDef.wrap(one)
+                SynthDef.wrap(none)
+                SynthDef.wrap(two)
+                run(dict(got))
     elif variant == 'manual':
         from sc3.synth.ugens import inout as io
 
@@ -683,7 +754,7 @@ PAR_TYPES = {'gate': [(['par', 'gate'], 'K')],
                           (['par', 'b'], 'K'), (['par', 'k'], 'K')],
              'specs': [(['par', 'freq'], 'K'), (['par', 'amp'], 'K'),
                        (['par', 'gate'], 'K')]}
-for _v in xg.GROUP_VARIANTS:
+for _v in xg.GROUP_VARIANTS + xg.WRAP_VARIANTS:
     # every single parameter, first and last element of every array
     _lst = []
     for _nm, _dv, _kind in xg.param_spec(_v):
@@ -2244,6 +2315,15 @@ def main(ctx):
                            f'every control group ({len(xg.GROUP_VARIANTS)} '
                            f'layouts), {length} statements' +
                            (', reduced pool' if quick else ''))
+        # several wrapped functions in one definition
+        progenum.run(ctx, MODNAME, 'work_xv',
+                     [{'length': length, 'pools': [pool] * length,
+                       'variants': xg.WRAP_VARIANTS, 'shard': i, 'of': 5,
+                       'tagbase': tagbase} for i in range(5)],
+                     bound=f'extended programs with sibling / nested '
+                           f'SynthDef.wrap calls ({len(xg.WRAP_VARIANTS)} '
+                           f'layouts), {length} statements' +
+                           (', reduced pool' if quick else ''))
     for name in sorted(SKELETONS):
         for m in (0, 1):
             progenum.run(ctx, MODNAME, 'work_x',
@@ -2280,7 +2360,8 @@ def main(ctx):
             'extended programs with parameters <= 2 statements (10 ways to '
             'declare them)',
             'extended programs with array parameters in every control '
-            'group <= 2 statements (reduced pool)',
+            'group and with sibling / nested SynthDef.wrap calls <= 2 '
+            'statements (reduced pool)',
             'skeletons + <= 1 inserted statement']
         ctx.extra['sampled_slices'] = [
             'C01 programs 2 statements: 1/8 of the prefixes',
@@ -2316,6 +2397,6 @@ def main(ctx):
             '3 statements (pool sin, in, bin, pan, mul, sel, lpf)',
             'extended programs with parameters: gate, mixed 2 statements; '
             'lag, lag20, rates, prepend, wrap, manual, defaults, specs '
-            '<= 3 statements; array parameters in every control group '
-            '<= 2 statements',
+            '<= 3 statements; array parameters in every control group and '
+            'sibling / nested SynthDef.wrap calls <= 2 statements',
             'skeletons + <= 2 inserted statements']
